@@ -39,92 +39,117 @@ class AffError(Exception):
 
 
 # ------------------------------------------------------------- polynomials
+# A form is a polynomial  {monomial: coefficient}; a monomial is a sorted
+# tuple of atoms, an atom one of
+#     ("src", name, digits...)   an entry of a source array
+#     ("s", name)                a scalar symbol (marker_scale, 1/scale ...)
+#     ("sym", name)              an opaque value (a colour, a string)
+#     ("inv", key)               the reciprocal of a non-constant form
+ONE = ()
+
+
+def _mono(*atoms) -> tuple:
+    return tuple(sorted(atoms, key=repr))
+
+
 def p_const(v) -> dict:
-    return {(): float(v)} if v else {}
+    return {ONE: float(v)} if v else {}
 
 
-def p_add(a: dict, b: dict, sign=1.0) -> dict:
-    out = dict(a)
-    for k, v in b.items():
-        out[k] = out.get(k, 0.0) + sign * v
-        if out[k] == 0:
-            del out[k]
-    return out
-
-
-def p_mul(a: dict, b: dict) -> dict:
-    out: dict = {}
-    for ka, va in a.items():
-        for kb, vb in b.items():
-            k = tuple(sorted(ka + kb))
-            out[k] = out.get(k, 0.0) + va * vb
-            if out[k] == 0:
-                del out[k]
-    return out
-
-
-# ------------------------------------------------------------------- forms
-ONE = ("one",)
+def atom(a: tuple) -> dict:
+    return {(a,): 1.0}
 
 
 def f_add(a: dict, b: dict, sign=1.0) -> dict:
     out = dict(a)
-    for k, c in b.items():
-        n = p_add(out.get(k, {}), c, sign)
-        if n:
-            out[k] = n
-        else:
+    for k, v in b.items():
+        n = out.get(k, 0.0) + sign * v
+        if abs(n) < 1e-12:
             out.pop(k, None)
-    return out
-
-
-def f_scalar(f: dict) -> Optional[dict]:
-    """the polynomial, if the form is a pure scalar"""
-    if not f:
-        return {}
-    if set(f) == {ONE}:
-        return f[ONE]
-    return None
-
-
-def _f_mul(form: dict, poly: dict) -> dict:
-    out = {}
-    for k, c in form.items():
-        n = p_mul(c, poly)
-        if n:
+        else:
             out[k] = n
     return out
 
 
 def mul(a: dict, b: dict) -> dict:
-    sa, sb = f_scalar(a), f_scalar(b)
-    if sa is not None and sb is not None:
-        p = p_mul(sa, sb)
-        return {ONE: p} if p else {}
-    if sb is not None:
-        return _f_mul(a, sb)
-    if sa is not None:
-        return _f_mul(b, sa)
-    raise AffError("product of two non-scalar entries")
+    out: dict = {}
+    for ka, va in a.items():
+        for kb, vb in b.items():
+            k = _mono(*(ka + kb))
+            # x * (1/x) cancels
+            k = _cancel(k)
+            n = out.get(k, 0.0) + va * vb
+            if abs(n) < 1e-12:
+                out.pop(k, None)
+            else:
+                out[k] = n
+    if len(out) > 4000:
+        raise AffError("polynomial too large")
+    return out
+
+
+def _cancel(k: tuple) -> tuple:
+    ks = list(k)
+    for x in list(ks):
+        if x[0] == "inv" and len(x[1]) == 1 and x[1][0][1] == 1.0 and \
+                len(x[1][0][0]) == 1 and x[1][0][0][0] in ks and x in ks:
+            ks.remove(x)
+            ks.remove(x[1][0][0][0])
+    return tuple(ks)
+
+
+def inverse(f: dict) -> dict:
+    """1 / f: a number for a constant, otherwise an `inv` atom"""
+    if set(f) == {ONE}:
+        return {ONE: 1.0 / f[ONE]}
+    if not f:
+        raise AffError("division by zero")
+    return atom(("inv", tuple(sorted(f.items(), key=repr))))
+
+
+def f_scalar(f: dict) -> Optional[float]:
+    """the number, if the form is a constant"""
+    if not f:
+        return 0.0
+    if set(f) == {ONE}:
+        return f[ONE]
+    return None
+
+
+def subst(f: dict, sym: tuple, value: float) -> dict:
+    """the form with a scalar atom replaced by a number"""
+    out: dict = {}
+    for k, v in f.items():
+        c = v
+        ks = []
+        for x in k:
+            if x == sym:
+                c *= value
+            else:
+                ks.append(x)
+        out = f_add(out, {tuple(ks): c})
+    return out
 
 
 def show(f: dict) -> str:
-    def poly(c):
-        parts = []
-        for k, v in sorted(c.items()):
-            s = "*".join(k)
-            parts.append(f"{v:g}" + ("*" + s if s else "") if v != 1 or not s
-                         else s)
-        return "(" + " + ".join(parts) + ")" if len(parts) > 1 else parts[0]
-
-    def key(k):
-        if k == ONE:
-            return "1"
-        if k[0] == "sym":
-            return k[1]
-        return f"{k[1]}[{', '.join(map(str, k[2:]))}]"
-    return " + ".join(f"{poly(c)}*{key(k)}" for k, c in sorted(
-        f.items(), key=lambda kv: str(kv[0]))) or "0"
+    def at(x):
+        if x[0] == "src":
+            return f"{x[1]}[{', '.join(map(str, x[2:]))}]"
+        if x[0] == "inv":
+            return "1/(" + show(dict(x[1])) + ")"
+        return str(x[1])
+    parts = []
+    for k, v in sorted(f.items(), key=lambda kv: repr(kv[0])):
+        body = "*".join(at(x) for x in k)
+        if not body:
+            parts.append(f"{v:g}")
+        elif v == 1:
+            parts.append(body)
+        elif v == -1:
+            parts.append("-" + body)
+        else:
+            parts.append(f"{v:g}*{body}")
+    return " + ".join(parts).replace("+ -", "- ") or "0"
 
 
 # ------------------------------------------------------------------ shapes
@@ -227,6 +252,13 @@ class Aff:
                         (1,)] + self.dims(tb.args[0])
             if op == "Add" and self._listy(ta) and self._listy(tb):
                 return self._cat_dims(self._add_parts(t), 0)
+            if op == "MatMult":
+                da, db = self.dims(a), self.dims(b)
+                if len(db) == 1:
+                    return da[:-1]
+                if len(db) == 2:
+                    return da[:-1] + [db[1]]
+                raise AffError("matmul rank")
             return self._bcast(self.dims(a), self.dims(b))
         if t.op == "unop":
             return self.dims(t.args[1])
@@ -527,17 +559,16 @@ class Aff:
             name, d = self.sources[t]
             if len(idx) != len(d):
                 raise AffError("rank")
-            return {("src", name) + tuple(x for dg in idx for x in dg):
-                    p_const(1)}
+            return atom(("src", name) + tuple(x for dg in idx for x in dg))
         if t in self.scalars:
-            return {ONE: {(self.scalars[t],): 1.0}}
+            return atom(("s", self.scalars[t]))
         if t in self.symbols:
-            return {("sym", self.symbols[t]): p_const(1)}
+            return atom(("sym", self.symbols[t]))
         if tm.is_const(t):
             v = tm.const_val(t)
             if isinstance(v, bool) or not isinstance(v, (int, float)):
-                return {("sym", repr(v)): p_const(1)}
-            return {ONE: p_const(v)} if v else {}
+                return atom(("sym", repr(v)))
+            return p_const(v)
         if t.op in ("list", "tuple"):
             if not idx:
                 raise AffError("rank")
@@ -635,6 +666,8 @@ class Aff:
             return self.entry(lst.args[k], idx[1:])
         if op == "Add" and self._listy(ta) and self._listy(tb):
             return self._cat_entry(self._add_parts(t), 0, idx)
+        if op == "MatMult":
+            return self._dot_entry(a, b, idx)
         da, db = self.dims(a), self.dims(b)
         ea = self.entry(a, self._align(idx, da))
         eb = self.entry(b, self._align(idx, db))
@@ -645,10 +678,12 @@ class Aff:
         if op == "Mult":
             return mul(ea, eb)
         if op == "Div":
-            sb = f_scalar(eb)
-            if sb is None or set(sb) != {()}:
-                raise AffError("division by a non-constant")
-            return _f_mul(ea, {(): 1.0 / sb[()]})
+            return mul(ea, inverse(eb))
+        if op == "Pow" and f_scalar(eb) in (2.0, 3.0):
+            out = ea
+            for _ in range(int(f_scalar(eb)) - 1):
+                out = mul(out, ea)
+            return out
         if op == "MatMult":
             return self._dot_entry(a, b, idx)
         raise AffError(f"operator {op}")
@@ -711,11 +746,11 @@ class Aff:
         if n in ("numpy.zeros", "numpy.zeros_like"):
             return {}
         if n == "numpy.ones":
-            return {ONE: p_const(1)}
+            return p_const(1)
         if n in ("numpy.empty", "numpy.empty_like"):
-            return {("sym", "uninitialised"): p_const(1)}
+            return atom(("sym", "uninitialised"))
         if n in ("numpy.eye", "numpy.identity"):
-            return {ONE: p_const(1)} if idx[-1] == idx[-2] else {}
+            return p_const(1) if idx[-1] == idx[-2] else {}
         if n in (".reshape", "numpy.reshape"):
             src, target = self._reshape_parts(t)
             sd = self.dims(src)
@@ -778,6 +813,29 @@ class Aff:
                   "numpy.multiply": "Mult", "numpy.divide": "Div"}[n]
             return self._binop_entry(T("binop", op, *t.args[1]), idx)
         raise AffError(f"entry of {tm.show(t)[:60]}")
+
+    # ------------------------------------------------- safe entry points
+    def entry_at(self, t: T, idx: list) -> dict:
+        """`entry`, with every internal inconsistency (rank mismatch after
+        an operation the algebra mis-models, ...) reported as AffError"""
+        try:
+            return self.entry(t, idx)
+        except AffError:
+            raise
+        except (StopIteration, IndexError, TypeError, KeyError, ValueError,
+                RecursionError) as ex:
+            raise AffError(f"{type(ex).__name__} while evaluating "
+                           f"{tm.show(t)[:60]}")
+
+    def dims_of(self, t: T) -> List[tuple]:
+        try:
+            return self.dims(t)
+        except AffError:
+            raise
+        except (StopIteration, IndexError, TypeError, KeyError, ValueError,
+                RecursionError) as ex:
+            raise AffError(f"{type(ex).__name__} in the shape of "
+                           f"{tm.show(t)[:60]}")
 
     # ------------------------------------------------------- queries
     def positions(self, dims: list):
